@@ -346,7 +346,8 @@ MANIFEST_META = {
     "level_text": "For each of 36 operators / composites a generated base operand and a constructed storage variant (permuted keys, "
                   "zero-padded superset, full canonical or binary layout) are evaluated on one algebra in the order base, variant, "
                   "base; the three results must be the same element or all raise. Exact operators are additionally anchored to the "
-                  "independent reference.",
+                  "independent reference."
+                  " Also: ndarray-backed storage of the same element (incl. two operands with cyclically shifted key orders), symbolic operands zero-padded to complete (and extra) grades in a graded algebra, and the operator as well as grade selection inside a registered function on base and variant storage.",
     "level_note": "Metamorphic: compares kingdon with itself (plus reference anchoring for the exact operators). d<=4; cost caps on "
                   "inverse-like operators; sqrt/exp only inside their documented domains.",
 }
